@@ -145,7 +145,8 @@ Definition old_dispatch_skeleton : skeleton :=
        true true
        true true true true
        true true true false
-       true true.
+       true true
+       true.
 
 Definition returns_under_decode (st : dstate) (l : dlabel) : bool :=
   match l with
@@ -549,7 +550,8 @@ Definition nodefer_skeleton : skeleton :=
        true true
        true true true true
        true true true true
-       true true.
+       true true
+       true.
 
 Definition cex_nodefer_ls : list dlabel :=
   [DStart 1; DCtxEnd 1; DCancelRet 1; DInResp 0 5; DDecodeErr; DDecodeRes].
